@@ -287,6 +287,90 @@ def request_part(ctx, g):
     lib.differential(ctx, dcs, 'decjson', describe='Decision.UnmarshalJSON: Go and the Coq model (Impl/RequestJson.v dec_decision) disagree')
 
 
+def coerce_part(ctx, g):
+    """x/exp/types/json.go coerceValue / coerceTagValues (hook VerifCoerceValue) = Impl/Coerce.v"""
+    r = ctx.rng
+    quick = ctx.tier == 'quick'
+    EXT = {'decimal': (gen.DEC_STRS, lambda: gen.vdec(r.choice(gen.DECS))), 'duration': (gen.DUR_STRS, lambda: gen.vdur(r.choice(gen.DURS))),
+           'datetime': (gen.DT_STRS, lambda: gen.vdt(r.choice(gen.DTS))), 'ipaddr': (gen.IP_STRS, lambda: gen.vip(r.choice(gen.IPS)))}
+    ATTRS = ['a', 'b', 'type', 'id', 'k', 'x y', '']
+
+    def typ(d):
+        k = r.randrange(10 if d > 0 else 6)
+        if d == 3 and k < 3:
+            k = r.randrange(3, 10)
+        if k == 0: return ['string']
+        if k == 1: return ['long']
+        if k == 2: return ['bool']
+        if k in (3, 4): return ['ext', S(r.choice(['decimal', 'duration', 'datetime', 'ipaddr', 'ipaddr', 'decimal', 'nosuch']))]
+        if k == 5: return ['ent', S(r.choice(gen.ETYPES))]
+        if k in (6, 7): return ['set', typ(d - 1)]
+        return ['rec'] + [[S(a), typ(d - 1), r.choice(['0', '1'])] for a in sorted(r.sample(ATTRS, r.randrange(0, 4)))]
+
+    def val(t, d):
+        if r.random() < 0.08:
+            return g.value(2)
+        h = t[0]
+        if h == 'string': return gen.vstr(r.choice(gen.STRINGS + gen.DEC_STRS[:4] + gen.IP_STRS[:3]))
+        if h == 'long': return gen.vlong(r.choice(gen.LONGS))
+        if h == 'bool': return gen.vbool(r.random() < 0.5)
+        if h == 'ext':
+            name = sx.unS(t[1]).decode()
+            strs, mk = EXT.get(name, EXT['decimal'])
+            k = r.random()
+            if k < 0.35: return mk()
+            if k < 0.8: return gen.vstr(r.choice(strs))
+            if k < 0.9: return gen.vstr(r.choice(EXT[r.choice(list(EXT))][0]))        # a literal of another extension type
+            return EXT[r.choice(list(EXT))][1]()
+        if h == 'ent':
+            ty, i = r.choice(gen.ETYPES), r.choice(gen.EIDS)
+            k = r.random()
+            if k < 0.35: return gen.vent(ty, i)
+            if k < 0.7: return gen.vrec([('type', gen.vstr(ty)), ('id', gen.vstr(i))])
+            if k < 0.8: return gen.vrec([('type', gen.vstr(ty)), ('id', gen.vstr(i)), ('extra', gen.vlong(1))])
+            if k < 0.85: return gen.vrec([('type', gen.vstr(ty))])
+            if k < 0.9: return gen.vrec([('type', gen.vstr(ty)), ('id', gen.vlong(1))])
+            if k < 0.95: return gen.vrec([('type', gen.vent(ty, i)), ('id', gen.vstr(i))])
+            return gen.vrec([('Type', gen.vstr(ty)), ('id', gen.vstr(i))])
+        if h == 'set':
+            ms = [val(t[1], d - 1) for _ in range(r.choice([0, 1, 2, 2, 3, 4]))]
+            if ms and r.random() < 0.3:
+                ms.append(r.choice(ms))
+            return gen.vset(ms)
+        kvs = {}
+        for f in t[1:]:
+            if r.random() < 0.8:
+                kvs[sx.unS(f[0]).decode()] = val(f[1], d - 1)
+        if r.random() < 0.3:
+            kvs[r.choice(['zz', 'type', 'id', 'a'])] = g.value(1)
+        return gen.vrec(sorted(kvs.items()))
+    cases, inputs = [], {}
+    for i in range(3000 if quick else 60000):
+        t = typ(3)
+        v = val(t, 3)
+        if lib.has_4in6(sx.dump(v)):
+            continue
+        if i % 7 == 0 and v[0] == 'rec':
+            c = case('ct%d' % i, 'coercetags', t, v)
+        else:
+            c = case('cv%d' % i, 'coerce', t, v)
+        cases.append(c)
+        inputs[lib.case_id(c)] = sx.dump(sx.canon_value(v))
+
+    def proj(s_):
+        try:
+            return sx.dump(sx.canon_value(sx.parse(s_)))
+        except Exception:
+            return s_
+    go_c, mo_c, m = lib.differential(ctx, cases, 'coerce', project=proj, nontrivial=lambda c, g_: proj(g_) != inputs[lib.case_id(c)],
+                                     describe='schema-guided coercion (x/exp/types coerceValue): Go and the Coq model (Impl/Coerce.v) disagree')
+    changed = sum(1 for c in cases if proj(go_c.get(lib.case_id(c), '')) != inputs[lib.case_id(c)])
+    ctx.extra['coerce'] = dict(cases=len(cases), changed_by_coercion=changed)
+    ctx.oblige('correspondence: coerceValue / coerceTagValues = Coerce.coerce / coerce_tags on %d (declared type, decoded value) pairs: explicit and implicit spellings of '
+               'entities and extension values at every depth, literals of the wrong extension type, records with extra / missing / mistyped members, '
+               'undeclared attributes, values of the wrong kind; the input value is never modified (%d changed by coercion)' % (len(cases), changed), 'correspondence', not m)
+
+
 def run(ctx):
     b = lib.standard_build(ctx)
     if not lib.require_builds(ctx, b):
@@ -364,6 +448,7 @@ def run(ctx):
                'correspondence', not m2)
     entity_part(ctx, g)
     request_part(ctx, g)
+    coerce_part(ctx, g)
     go = lib.run_go(cases, 'json', ctx.workdir)
     bad = 0
     for c in cases:
